@@ -10,12 +10,14 @@ mkdir -p .build/bin evidence replays
 REPO="${VERIF_REPO:-/repo}"
 for flavour in plain sync; do
   B="$H/.build/setup-$flavour"
-  rm -rf "$B"; mkdir -p "$B/overlay"
-  f=""; [ "$flavour" = sync ] && f="-sync"
+  rm -rf "$B"; mkdir -p "$B/overlay" "$B/out"
+  f=""; pk="./cmd/..."
+  if [ "$flavour" = sync ]; then f="-sync"; pk="./cmd/c18"; [ -d harness/cmd/c18 ] || continue; fi
   .build/bin/overlaygen -repo "$REPO" -shim "$H/shim" -out "$B/overlay" $f
   sed "s#@REPO@#$REPO#" harness/go.mod.tmpl > "$B/harness.mod"
   cp "$REPO/go.sum" "$B/harness.sum"
-  ( cd harness && go build -tags verif -modfile "$B/harness.mod" -overlay "$B/overlay/overlay.json" -o "$B/harness" ./cmd/harness )
+  ( cd harness && go build -tags verif -modfile "$B/harness.mod" -overlay "$B/overlay/overlay.json" -o "$B/out/" $pk )
+  rm -rf "$B/out"
 done
 ( cd "$REPO" && go build -o "$H/.build/bin/git-bug-setup" . )
 echo "setup ok"
